@@ -433,9 +433,13 @@ func mapOrdered(w *World, fn *ssa.Function, depth int, seen map[*ssa.Function]bo
 	}
 	seen[fn] = true
 	hasSort := false
+	weakSort := ""
 	for _, cl := range Calls(fn) {
 		if strings.HasPrefix(cl.Name, "sort.") || strings.HasPrefix(cl.Name, "slices.Sort") {
 			hasSort = true
+			if why := lessNotTotal(cl); why != "" {
+				hasSort, weakSort = false, why
+			}
 		}
 	}
 	for _, r := range Returns(fn) {
@@ -457,6 +461,9 @@ func mapOrdered(w *World, fn *ssa.Function, depth int, seen map[*ssa.Function]bo
 			for _, o := range origins(v) {
 				if fromMapRange(o.Val) || fromMapRange(v) {
 					if !hasSort {
+						if weakSort != "" {
+							return true, funcName(fn) + " fills its result from a range over a map and sorts it with a comparison that does not order all distinct elements (" + weakSort + "): elements that compare equal keep the map's order, which changes from one request to the next"
+						}
 						return true, funcName(fn) + " fills its result from a range over a map and does not sort it"
 					}
 				}
@@ -729,6 +736,19 @@ func checkIndexDiscipline(c *Ctx, fn *ssa.Function, name string) {
 				if j != nil && sl.High == nil && isBo2 && low.Op == token.ADD {
 					k, isK := constInt(low.Y)
 					if low.X == j && isK && k == 1 {
+						// and the cut happens whenever the cursor matches: no other condition inside the scan
+						extra := ""
+						if hdr := enclosingLoopHeader(cc.If.Block()); hdr != nil {
+							for _, c2 := range controlConds(b, hdr.Idom()) {
+								if c2.If != cc.If && !isLoopHeader(c2.If.Block()) {
+									extra = w.InstrPos(c2.If)
+								}
+							}
+						}
+						if extra != "" {
+							whyAfter = "the cut at the 'after' cursor is additionally conditional on " + extra + ": for some cursor positions (e.g. the last element) the cursor is ignored and the whole list is returned again"
+							continue
+						}
 						okAfter = true
 						continue
 					}
@@ -930,4 +950,38 @@ func checkEdgeAndConMakers(c *Ctx) {
 	if n < 6 {
 		c.Violate("R20.7", "expected:pagination-calls", "api/graphql/resolvers", fmt.Sprintf("%d pagination calls found (reference 8)", n))
 	}
+}
+
+// lessNotTotal: for sort.Slice / sort.SliceStable with a less closure, a reason why the closure may
+// leave distinct elements unordered (it compares values derived from the elements through a call
+// that need not be injective); "" when the elements themselves (or conversions of them) are compared.
+func lessNotTotal(cl *Call) string {
+	if cl.Name != "sort.Slice" && cl.Name != "sort.SliceStable" {
+		return ""
+	}
+	args := cl.Args()
+	if len(args) != 2 {
+		return ""
+	}
+	less := closureFn(args[1])
+	if less == nil {
+		return ""
+	}
+	for _, r := range Returns(less) {
+		bo, ok := r.Results[0].(*ssa.BinOp)
+		if !ok {
+			continue
+		}
+		for _, side := range []ssa.Value{bo.X, bo.Y} {
+			v := stripConv(side)
+			if cv, isCall := v.(*ssa.Call); isCall {
+				n, _ := callName(cv.Common())
+				if strings.HasSuffix(n, ".Id") || strings.HasSuffix(n, ".String") {
+					continue // identifying accessors
+				}
+				return "it compares " + n + "(element)"
+			}
+		}
+	}
+	return ""
 }
